@@ -33,6 +33,10 @@ def run(ctx):
                             "non-trivial = distinct (program,text) with a match" % (3, 3 if quick else 4))
     ctx.coverage["exhaustive"] = not quick
     ctx.coverage["hangs_seen"] = stats.get("go_hang", 0)
+    # the outer scan must advance on every byte string, text or not: truncated / stray UTF-8 at every distance from the end
+    bprogs = ["find all 'a'", "find all maybe 'a'", "find all at least 0 (line start)", "find all 'z'", "find all at least 0 any fewest 'q'", "find all not 'a'", "find all line end",
+              "find all at least 1 letter", "find all any", "replace all maybe 'b' with 'x'"] + ["find all " + p for p in (NULLABLE[:6] if quick else NULLABLE)]
+    ctx.coverage["hostile_byte_runs"] = impl_only_runs(ctx, bprogs, HOSTILE_TAILS + [t[:k] for t in HOSTILE_TAILS[:6] for k in range(len(t))], "C10", timeout_ms=8000)
 
 
 def replay(ctx, obj):
